@@ -137,6 +137,13 @@ pub const SMALL_SETS: &[(u64, u64, u64)] = &[
     (263, 131, 4),
 ];
 pub const SET62: (u64, u64, u64) = (2305843009213699919, 1152921504606849959, 4);
+/// mid-size safe-prime sets (p, q, g) with 130 and 256 bits (3 limbs with a nearly empty top limb; 4 full
+/// limbs): limb counts between the 62-bit and the 2048-bit sets.  q - 1 is smooth, so the primality
+/// certificates in lean/StrandModel/Lemmas/PrattCerts.lean are short (Props/ParamSets.lean: S130, S256).
+pub const MID_SETS: &[(&str, &str, &str)] = &[
+    ("1096684572681074249423426611232341077287", "548342286340537124711713305616170538643", "4"),
+    ("105471767675930315612036171777931760705188871995060243858521972678074607394647", "52735883837965157806018085888965880352594435997530121929260986339037303697323", "4"),
+];
 
 /// Integers with a special machine representation (never hit by uniform sampling, never present in toy
 /// groups): zero limbs at the low / middle / high end, single bits, all-ones runs, every byte length,
